@@ -57,9 +57,7 @@ let cache_runner (ops : ('v, 'b) matOps) (b : 'b) (cap : int) (fmt : 'v -> strin
         let extra = match o with
           | GRow (k, _, e) -> " ret=" ^ cat (List.map fmt (take (inn e) (gline !st k)))
           | GRowC (k, a0, e) ->
-            (match gcm_row_const ops k a0 e pre with
-             | Some l -> " ret=" ^ cat (List.map fmt (take (inn e - inn a0) l))
-             | None -> " ret=UB")
+            " ret=" ^ cat (List.map fmt (gcm_row_const ops k a0 e pre))
           | _ -> "" in
         Some (extra ^ dump (match o with GFlip _ -> true | _ -> false))
       end) }
